@@ -164,6 +164,18 @@ func (e *SpecEnv) localAlloc(name string) *ssa.Alloc {
 			}
 		}
 	}
+	// a variable declared inside the loop body (e.g. `sent := ...` as the first statement)
+	if e.lp != nil {
+		var inLoop []*ssa.Alloc
+		for _, a := range cands {
+			if b := a.Block(); b != nil && e.lp.Blocks[b] {
+				inLoop = append(inLoop, a)
+			}
+		}
+		if len(inLoop) == 1 {
+			return inLoop[0]
+		}
+	}
 	e.fail("identifier %s is ambiguous (%d declarations)", name, len(cands))
 	return nil
 }
@@ -470,7 +482,8 @@ func (e *SpecEnv) eval(x *SExpr) Val {
 			if (mp.Kind == PObj || mp.Kind == PArr || mp.Kind == PCell) && len(mp.Path) == 0 {
 				return Val{T: types.NewPointer(mp.Root), C: []*Term{mp.Ref}}
 			}
-			e.fail("cannot take the address of this location in a spec")
+			// interior location (array element, field of an element): a meta-level pointer
+			return Val{T: types.NewPointer(navigateType(mp)), Ptr: mp}
 		}
 		v := e.eval(x.Args[0])
 		switch x.Op {
@@ -1008,7 +1021,7 @@ func (e *SpecEnv) evalLoc(cl Clause) Loc {
 		} else if pt, ok := base.T.Underlying().(*types.Pointer); ok {
 			mp = e.ex.objPtr(pt.Elem(), base.C[0])
 			guard = Neq(base.C[0], IntC(0))
-		} else if _, ok := base.T.Underlying().(*types.Struct); ok && x.Args[0].Kind == "select" {
+		} else if _, ok := base.T.Underlying().(*types.Struct); ok && (x.Args[0].Kind == "select" || x.Args[0].Kind == "index") {
 			// field of an embedded struct reached through a pointer: p.a.b
 			inner := e.evalLoc(Clause{Expr: x.Args[0], Src: cl.Src, Line: cl.Line})
 			mp = inner.Ptr
@@ -1024,9 +1037,23 @@ func (e *SpecEnv) evalLoc(cl Clause) Loc {
 			mp = mp.extend(Step{Field: i})
 		}
 		return Loc{Kind: "ptr", Ptr: mp, Guard: guard}
+	case "index":
+		// element of an array location (array field of a struct, element of an array of structs)
+		inner := e.evalLoc(Clause{Expr: x.Args[0], Src: cl.Src, Line: cl.Line})
+		if inner.Kind != "ptr" {
+			e.fail("unsupported indexed location %s", cl.Src)
+		}
+		if _, ok := navigateType(inner.Ptr).Underlying().(*types.Array); !ok {
+			e.fail("indexed location %s is not an array", cl.Src)
+		}
+		idx := toBV64(e.coerce(e.eval(x.Args[1]), tInt))
+		return Loc{Kind: "ptr", Ptr: inner.Ptr.extend(Step{Field: -1, Index: idx}), Guard: inner.Guard}
 	case "unary":
 		if x.Op == "*" {
 			base := e.eval(x.Args[0])
+			if base.Ptr != nil {
+				return Loc{Kind: "ptr", Ptr: base.Ptr}
+			}
 			pt := base.T.Underlying().(*types.Pointer)
 			return Loc{Kind: "ptr", Ptr: e.ex.objPtr(pt.Elem(), base.C[0]), Guard: Neq(base.C[0], IntC(0))}
 		}
